@@ -12,6 +12,7 @@ import itertools
 import os
 import re
 
+from vf.gen import catalogue as K
 from vf import core, tool
 from vf.b09 import interp as I
 from vf.b09 import runtime as R
@@ -306,6 +307,9 @@ def gen(run):
                 if name.startswith("joystk"):
                     feats.add("uses-joystk")
                 cases.append({"text": text, "opts": {}, "hbuff": name == "hbuff", "features": feats, "origin": f"{name} {c} {sn}"})
+                if set(c) <= {"lit", "var"}:
+                    # the same statement with every optional blank removed (HBUFF1,10 / PALETTERGB / SOUND11,22)
+                    cases.append({"text": K.crunch(text), "opts": {}, "hbuff": name == "hbuff", "features": feats | {"crunched"}, "origin": f"{name} {c} {sn} crunched"})
         run.states += len(combos) * len(ss)
         run.transitions += len(combos) * len(ss)
     # speed pokes (literal addresses only)
